@@ -8,8 +8,8 @@ Import ListNotations.
 (* shapes and zero pattern, for ANY scalar type (binary64 included), any operator, any batch of start vectors:
    at most min(max_iters, n) steps; first column v/||v||; Q has max_iters+1 columns, H is (max_iters+1) x max_iters,
    upper Hessenberg; columns of H from the number of steps on, and columns of Q after it, are zero *)
-Theorem C15_structure : forall (C V : Type) (o : kops C V) (A : V -> V) (rfix cfix : bool) (n : nat) (vs : list V) (max_iters : nat) (tol : C),
-  let res := arnoldi_batch o A rfix cfix n vs max_iters tol in
+Theorem C15_structure : forall (C V : Type) (o : kops C V) (A : V -> V) (rfix cfix afix : bool) (n : nat) (vs : list V) (max_iters : nat) (tol : C),
+  let res := arnoldi_batch o A rfix cfix afix n vs max_iters tol in
   let k := fst res in
   k <= Nat.min max_iters n /\ length (snd res) = length vs /\
   map (fun s => col o (aQ s) 0) (snd res) = map (fun v => o.(vdiv) v (o.(vnrm) v)) vs /\
@@ -24,10 +24,10 @@ Print Assumptions C15_structure.
 
 (* padding lemma, for ANY scalar type: asking for max_iters steps gives the min(max_iters, n)-step factorisation with
    (max_iters - cap) zero columns appended to Q and as many zero rows and zero columns appended to H *)
-Theorem C15_padding : forall (C V : Type) (o : kops C V) (A : V -> V) (rfix cfix : bool) (n : nat) (vs : list V) (max_iters : nat) (tol : C),
+Theorem C15_padding : forall (C V : Type) (o : kops C V) (A : V -> V) (rfix cfix afix : bool) (n : nat) (vs : list V) (max_iters : nat) (tol : C),
   let cap := Nat.min max_iters n in
-  let small := arnoldi_batch o A rfix cfix n vs cap tol in
-  let big := arnoldi_batch o A rfix cfix n vs max_iters tol in
+  let small := arnoldi_batch o A rfix cfix afix n vs cap tol in
+  let big := arnoldi_batch o A rfix cfix afix n vs max_iters tol in
   fst big = fst small /\ Forall2 (Padded o cap (max_iters - cap)) (snd small) (snd big).
 Proof. exact @arnoldi_padding_lemma. Qed.
 Print Assumptions C15_padding.
@@ -35,10 +35,10 @@ Print Assumptions C15_padding.
 (* repaired variant (max_iters capped at n before the buffers are allocated; flag arnoldi_padding gone): same number of steps,
    the pinned result is the repaired one padded with zeros, and the repaired buffers have min(max_iters,n)+1 / min(max_iters,n)
    columns, so arnoldi_eigs' H[:-1] carries no zero padding.  Every theorem of this file holds for it (instance max_iters := min) *)
-Theorem C15_capped_variant : forall (C V : Type) (o : kops C V) (A : V -> V) (rfix cfix : bool) (n : nat) (vs : list V) (max_iters : nat) (tol : C),
+Theorem C15_capped_variant : forall (C V : Type) (o : kops C V) (A : V -> V) (rfix cfix afix : bool) (n : nat) (vs : list V) (max_iters : nat) (tol : C),
   let cap := Nat.min max_iters n in
-  let fixed := arnoldi_batch_capped o A rfix cfix n vs max_iters tol in
-  let pinned := arnoldi_batch o A rfix cfix n vs max_iters tol in
+  let fixed := arnoldi_batch_capped o A rfix cfix afix n vs max_iters tol in
+  let pinned := arnoldi_batch o A rfix cfix afix n vs max_iters tol in
   fst pinned = fst fixed /\ Forall2 (Padded o cap (max_iters - cap)) (snd fixed) (snd pinned) /\
   forall s, In s (snd fixed) -> length (aQ s) = cap + 1 /\ length (aH s) = cap /\
                                  (forall j, j < cap -> length (nth j (aH s) []) = cap + 1).
@@ -49,11 +49,11 @@ Print Assumptions C15_capped_variant.
    if the first k steps were regular (remainder non-zero, clipped normalisation inactive) then columns 0..k of Q are
    orthonormal (modified Gram-Schmidt) and A q_j = sum_{i<=j+1} H[i,j] q_i for j < k (Arnoldi relation, by construction);
    for every step j taken, regular or not, A q_j = sum_{i<=j} H[i,j] q_i + x_j with H[j+1,j] = ||x_j|| *)
-Theorem C15_whole_run : forall (C V : Type) (o : kops C V) (A : V -> V) (rfix cfix : bool) (nonneg : C -> Prop), ilaws o nonneg ->
+Theorem C15_whole_run : forall (C V : Type) (o : kops C V) (A : V -> V) (rfix cfix afix : bool) (nonneg : C -> Prop), ilaws o nonneg ->
   forall (tol : C) (n : nat) (vs : list V) (max_iters : nat), Forall (fun v => o.(vnrm) v <> o.(c0)) vs ->
-  forall s, In s (snd (arnoldi_batch o A rfix cfix n vs max_iters tol)) ->
-  let steps := fst (arnoldi_batch o A rfix cfix n vs max_iters tol) in
-  (forall k, k <= steps -> alive o cfix tol k s -> Good o A k s) /\
+  forall s, In s (snd (arnoldi_batch o A rfix cfix afix n vs max_iters tol)) ->
+  let steps := fst (arnoldi_batch o A rfix cfix afix n vs max_iters tol) in
+  (forall k, k <= steps -> alive o cfix afix tol k s -> Good o A k s) /\
   (forall j, j < steps -> exists x, Hent o (aH s) (S j) j = o.(vnrm) x /\
      forall u, o.(vdot) u (A (col o (aQ s) j)) =
                o.(cadd) (csum o (S j) (fun i => o.(cmul) (Hent o (aH s) i j) (o.(vdot) u (col o (aQ s) i)))) (o.(vdot) u x)).
@@ -61,19 +61,19 @@ Proof. exact @arnoldi_run. Qed.
 Print Assumptions C15_whole_run.
 
 (* sub-diagonal entries are non-negative *)
-Theorem C15_subdiag_nonneg : forall (C V : Type) (o : kops C V) (A : V -> V) (rfix cfix : bool) (nonneg : C -> Prop), ilaws o nonneg ->
+Theorem C15_subdiag_nonneg : forall (C V : Type) (o : kops C V) (A : V -> V) (rfix cfix afix : bool) (nonneg : C -> Prop), ilaws o nonneg ->
   forall (tol : C) (n : nat) (vs : list V) (max_iters : nat), Forall (fun v => o.(vnrm) v <> o.(c0)) vs ->
-  forall s, In s (snd (arnoldi_batch o A rfix cfix n vs max_iters tol)) ->
-  forall j, j < fst (arnoldi_batch o A rfix cfix n vs max_iters tol) -> nonneg (Hent o (aH s) (S j) j).
+  forall s, In s (snd (arnoldi_batch o A rfix cfix afix n vs max_iters tol)) ->
+  forall j, j < fst (arnoldi_batch o A rfix cfix afix n vs max_iters tol) -> nonneg (Hent o (aH s) (S j) j).
 Proof. exact @arnoldi_subdiag_nonneg. Qed.
 Print Assumptions C15_subdiag_nonneg.
 
 
 (* breakdown: a vanishing remainder at step j means A q_j lies in span(q_0..q_j): the basis spans an A-invariant subspace *)
-Theorem C15_breakdown_invariant : forall (C V : Type) (o : kops C V) (A : V -> V) (rfix cfix : bool) (nonneg : C -> Prop), ilaws o nonneg ->
+Theorem C15_breakdown_invariant : forall (C V : Type) (o : kops C V) (A : V -> V) (rfix cfix afix : bool) (nonneg : C -> Prop), ilaws o nonneg ->
   forall (tol : C) (n : nat) (vs : list V) (max_iters : nat), Forall (fun v => o.(vnrm) v <> o.(c0)) vs ->
-  forall s, In s (snd (arnoldi_batch o A rfix cfix n vs max_iters tol)) ->
-  forall j, j < fst (arnoldi_batch o A rfix cfix n vs max_iters tol) -> Hent o (aH s) (S j) j = o.(c0) ->
+  forall s, In s (snd (arnoldi_batch o A rfix cfix afix n vs max_iters tol)) ->
+  forall j, j < fst (arnoldi_batch o A rfix cfix afix n vs max_iters tol) -> Hent o (aH s) (S j) j = o.(c0) ->
   forall u, o.(vdot) u (A (col o (aQ s) j)) = csum o (S j) (fun i => o.(cmul) (Hent o (aH s) i j) (o.(vdot) u (col o (aQ s) i))).
 Proof. exact @arnoldi_breakdown_invariant. Qed.
 Print Assumptions C15_breakdown_invariant.
@@ -96,8 +96,8 @@ Print Assumptions C15_ritz_pairs.
 
 (* the current tree, flag arnoldi_padding, for EVERY operator and start: with max_iters > n the square matrix that
    arnoldi_eigs hands to eig has a zero last column, so 0 is returned as an eigenvalue whatever the spectrum of A is *)
-Theorem C15_eigs_padding_refuted : forall (C V : Type) (o : kops C V) (A : V -> V) (rfix cfix : bool) (n : nat) (vs : list V) (max_iters : nat) (tol : C),
-  n < max_iters -> forall s, In s (snd (arnoldi_batch o A rfix cfix n vs max_iters tol)) -> forall i, eigs_matrix o s i (max_iters - 1) = o.(c0).
+Theorem C15_eigs_padding_refuted : forall (C V : Type) (o : kops C V) (A : V -> V) (rfix cfix afix : bool) (n : nat) (vs : list V) (max_iters : nat) (tol : C),
+  n < max_iters -> forall s, In s (snd (arnoldi_batch o A rfix cfix afix n vs max_iters tol)) -> forall i, eigs_matrix o s i (max_iters - 1) = o.(c0).
 Proof. exact @arnoldi_eigs_zero_column. Qed.
 Print Assumptions C15_eigs_padding_refuted.
 
@@ -115,10 +115,10 @@ Theorem C15_clip_garbage_repaired : clip_repaired_ok = true.
 Proof. exact arnoldi_clip_garbage_repaired. Qed.
 Print Assumptions C15_clip_garbage_repaired.
 
-Theorem C15_zero_after_breakdown : forall (C V : Type) (o : kops C V) (A : V -> V) (rfix : bool) (n : nat) (vs : list V) (max_iters : nat) (tol : C),
-  forall s, In s (snd (arnoldi_batch o A rfix true n vs max_iters tol)) ->
-  forall j, j < fst (arnoldi_batch o A rfix true n vs max_iters tol) ->
-  o.(cgtb) (Hent o (aH s) (S j) j) (o.(cdiv) tol (two o)) = false -> col o (aQ s) (S j) = o.(vzero).
+Theorem C15_zero_after_breakdown : forall (C V : Type) (o : kops C V) (A : V -> V) (rfix afix : bool) (n : nat) (vs : list V) (max_iters : nat) (tol : C),
+  forall s, In s (snd (arnoldi_batch o A rfix true afix n vs max_iters tol)) ->
+  forall j, j < fst (arnoldi_batch o A rfix true afix n vs max_iters tol) ->
+  o.(cgtb) (Hent o (aH s) (S j) j) (athr o afix tol (aH s)) = false -> col o (aQ s) (S j) = o.(vzero).
 Proof. exact @arnoldi_zero_after_breakdown. Qed.
 Print Assumptions C15_zero_after_breakdown.
 
@@ -127,9 +127,19 @@ Proof. exact arnoldi_reltol_first_step_refuted. Qed.
 Print Assumptions C15_reltol_first_step_refuted.
 
 (* the repaired stopping test (rfix = true; all theorems above hold for it too) stops after the first step on that input *)
-Theorem C15_reltol_first_step_repaired : arnoldi_steps (fops 3) (fmv S3) true false 3 ev3 3 tol7 = 1.
+Theorem C15_reltol_first_step_repaired : arnoldi_steps (fops 3) (fmv S3) true false false 3 ev3 3 tol7 = 1.
 Proof. exact arnoldi_reltol_first_step_repaired. Qed.
 Print Assumptions C15_reltol_first_step_repaired.
+
+(* flag arnoldi_absolute_clip: with the absolute threshold tol/2 a small-scale operator (1e-6*[[2,1],[1,3]], tol = 1e-6) gets a zero second
+   basis column although the remainder is 14% of ||A q_0||; with the relative threshold (afix = true, for which every theorem above holds
+   as well) that column is a non-zero (unit) vector *)
+Theorem C15_absolute_clip_refuted : absclip_at false = (true, true).
+Proof. exact arnoldi_absolute_clip_refuted. Qed.
+Print Assumptions C15_absolute_clip_refuted.
+Theorem C15_absolute_clip_repaired : absclip_at true = (false, true).
+Proof. exact arnoldi_absolute_clip_repaired. Qed.
+Print Assumptions C15_absolute_clip_repaired.
 
 Theorem C15_batch_shared_stop_refuted : abatch_bad = true.
 Proof. exact arnoldi_batch_shared_stop_refuted. Qed.
